@@ -170,6 +170,11 @@ func mirrorMain(args mon.Args) {
 			jobs = append(jobs, mjob{proto: p, size: sz, form: 2, lo: sz - 120, hi: sz, race: true})
 		}
 	}
+	// the largest datagram UDP over IPv4 can carry (65507 octets of payload = an IP packet of exactly 65535) with
+	// max-udp-size set to match: the top of the 16-bit length fields
+	for _, p := range []string{"ipfix", "sflow"} {
+		jobs = append(jobs, mjob{proto: p, size: 65507, form: 2, lo: 65490, hi: 65507})
+	}
 	var replayW *witness
 	if args.Replay != "" {
 		d, err := mon.LoadReplay(args.Replay)
